@@ -257,7 +257,7 @@ func init() {
 		CrashIsViolation:  true,
 		MinNonTrivial:     1000,
 		MinEffectiveShare: 0.5,
-		RequiredEvents:    map[string]int64{"entry_point_runs": 10000, "single_mutations": 1500, "multi_mutations": 150, "byte_mutations": 100, "fixture_mutations": 100, "binary_runs": 100, "results_returned": 1000, "errors_returned": 300},
+		RequiredEvents:    map[string]int64{"entry_point_runs": 10000, "single_mutations": 1500, "multi_mutations": 150, "byte_mutations": 100, "fixture_mutations": 80, "binary_runs": 100, "results_returned": 1000, "errors_returned": 300},
 	})
 }
 
